@@ -181,6 +181,12 @@ def main():
 
     # ---- (1) proof part
     audit = engine.audit_property_file(pid)
+    # the driver runs the extended operations of XJoin.v; P_Bridge.v pins that they are the proved ones on states
+    # without vacant slots.  It is part of every property's proof obligation.
+    bridge = engine.audit_property_file("Bridge")
+    audit["errors"] = list(audit["errors"]) + ["P_Bridge.v: " + e for e in bridge["errors"]]
+    audit["open_assumptions"] = list(audit["open_assumptions"]) + list(bridge["open_assumptions"])
+    audit["bridge"] = {"file": bridge["file"], "obligations": bridge["obligations"], "discharged": bridge["discharged"]}
     bad_src = engine.audit_sources()
     proof_errors = list(audit["errors"]) + ["forbidden: " + b for b in bad_src]
     if audit["open_assumptions"]:
@@ -335,6 +341,7 @@ def main():
         "checker_cmd": audit.get("checker_cmd", ""),
         "trusted_base": props.TRUSTED_BASE + prop.trusted_extra,
         "theorems": audit["theorems"],
+        "bridge": audit.get("bridge"),
         "proof_errors": proof_errors,
         "coqchk": chk if chk is not None else "thorough tier only",
         "model_build": mb,
